@@ -69,7 +69,7 @@ def tla_shape(node):
 
 def cfg_of(fx):
     c = dict(manual=True, order="TopDown", payload="int", limit=4, taskcap=None, inj=[], defplan=[],
-             features=list(ALL_FEATURES), overrides={})     # overrides: {"<state id>": [methods the state defines]}
+             features=list(ALL_FEATURES), overrides={}, utility="rational")     # utility: "rational" (exact) | "float"     # overrides: {"<state id>": [methods the state defines]}
     c.update(fx.get("config", {}))
     fl = Flat(fx["shape"])
     if c["taskcap"] is None:
@@ -87,10 +87,10 @@ def tla_defs(fx):
         ovr.append("{%s}" % ",".join('"%s"' % m for m in ms))
     return ("ShapeDef == %s\n"
             "CfgDef == [order |-> \"%s\", limit |-> %d, taskcap |-> %d, inj |-> {%s}, defplan |-> {%s}, manual |-> %s, features |-> {%s},\n"
-            "           ovr |-> <<%s>>]\n"
+            "           ovr |-> <<%s>>, exact |-> %s]\n"
             % (tla_shape(fx["shape"]), c["order"], c["limit"], c["taskcap"],
                ",".join(map(str, c["inj"])), ",".join(map(str, c["defplan"])), "TRUE" if c["manual"] else "FALSE",
-               ",".join('"%s"' % f for f in c["features"]), ", ".join(ovr)))
+               ",".join('"%s"' % f for f in c["features"]), ", ".join(ovr), "FALSE" if c["utility"] == "float" else "TRUE"))
 
 
 ALL_METHODS = ["select", "rank", "utility", "entryGuard", "enter", "reenter", "preUpdate", "update", "postUpdate",
@@ -176,6 +176,8 @@ def cpp_source(fx, header="hfsm2/machine.hpp", extra_defines=()):
         lines.append("#define HFSM2_ENABLE_%s" % f)
     for d in extra_defines:
         lines.append("#define %s" % d)
+    if c["utility"] == "float":
+        lines.append("#define FX_FLOAT_UTILITY 1")
     lines.append('#include <%s>' % header)
     lines.append('#include "prelude.hpp"')
     lines.append("namespace fx {")
@@ -186,7 +188,8 @@ def cpp_source(fx, header="hfsm2/machine.hpp", extra_defines=()):
     if c["order"] == "BottomUp":
         cfgt += "::BottomUpReactions"
     if "UTILITY_THEORY" in c["features"]:
-        cfgt += "::RankT<int>::UtilityT<vf::Rational>::RandomT<vf::ScriptedRng>"
+        cfgt += ("::RankT<int>::RandomT<vf::ScriptedRng>" if c["utility"] == "float"
+                 else "::RankT<int>::UtilityT<vf::Rational>::RandomT<vf::ScriptedRng>")
     cfgt += "::SubstitutionLimitN<%d>" % c["limit"]
     if "PLANS" in c["features"] and fx.get("config", {}).get("taskcap") is not None:
         cfgt += "::TaskCapacityN<%d>" % c["taskcap"]
